@@ -372,3 +372,16 @@ _ROUND13 = {
 }
 for _k, _v in _ROUND13.items():
     CHECKS[_k]["level_text"] += _v
+
+# Additions of round 14.
+_ROUND14 = {
+    "C01": " In half of the plans the clients number their requests from a pool of 1-3 identifiers; one plan in ten has a steady publisher (17-40 QoS 1/2 exchanges in a row on one connection).",
+    "C02": " Broker role: stray acknowledgements (PUBACK / PUBCOMP / PUBREC for nothing the broker sent, possibly with the identifier of an open inbound exchange). Client role: in a fifth of the scripts the server writes its CONNACK and a waiting QoS 1 PUBLISH in one piece.",
+    "C05": " The witness publisher numbers its packets from 60000 downwards and everything it is sent back must acknowledge one of them (each QoS 1 PUBLISH exactly once); attackers complete QoS 2 exchanges and repeat PUBRELs, and the witness subscribed to everything receives each named attacker message at most once.",
+    "C08": " SUBSCRIBEs may carry a refused filter in front of or among the granted ones; in half of the plans identifiers come from a pool of 1-3.",
+    "C14": " Consumer programs also call ReadWait twice at one position (a short look-ahead, then the whole chunk).",
+    "C15": " Unit wake-windows enumerates every schedule of 50 configurations without Close in which a blocked call must be released by one step of its peer that frees or delivers enough.",
+    "C16": " Unit faults also has the end cause second-connect, clients with a zero-length identifier, and a count of the session store once every connection but the witness's is torn down.",
+}
+for _k, _v in _ROUND14.items():
+    CHECKS[_k]["level_text"] += _v
